@@ -91,7 +91,9 @@ def analyze(ctx, want):
     ddp = [e for p in paths[:1] for e in p.events if e[0] == "call" and re.search(r"Vec::<.*>::dedup$", e[2])]
     others = [M.short_name(M.call_name(t)) for bb, t in ip.calls(r"Iterator>::(rev|skip|take|step_by|skip_while|take_while|chain|zip)\b|::(dedup_by\w*|retain|truncate|pop|remove|swap_remove|drain)$")]
     src_ok = bool(sel) and "dfa.end_states" in S.fstr(sel[0][3][0])
-    ob("C03.a", "terminal-list-sorted-and-deduplicated", src_ok and len(srt) == 1 and len(ddp) == 1 and not others,
+    # (collecting into a BTreeSet gives the same list: ascending, no duplicates)
+    as_set = [e for p in paths[:1] for e in p.events if e[0] == "call" and re.search(r"Iterator>::collect::<std::collections::BTreeSet<", e[2])]
+    ob("C03.a", "terminal-list-sorted-and-deduplicated", src_ok and ((len(srt) == 1 and len(ddp) == 1) or (len(as_set) == 1 and not srt and not ddp)) and not others,
        "%s over %s, sort x%d, dedup x%d, other list operations %s" % ([re.search(r"Iterator>::(\w+)", e[2]).group(1) for e in sel], S.fstr(sel[0][3][0])[:40] if sel else None, len(srt), len(ddp), others), ip.loc())
     rows = set()
     n_sel = 0
@@ -144,6 +146,26 @@ def analyze(ctx, want):
                 keyed = [e for e in p.events if e[0] == "call" and re.search(r"BTreeMap::<.*>::(entry|get_mut|get|insert)(::<.*>)?$", e[2]) and len(e[3]) >= 2 and (ex.deref_val(p, e[3][1]) == sres if e[3][1][0] == "ref" else e[3][1] == sres)]
                 added = [e for e in ins if e[3][1] == st] + [e for e in p.events if e[0] == "call" and re.search(r"BTreeMap::<.*>::insert$", e[2]) and len(e[3]) == 3 and S.mentions(e[3][2], lambda x: x == st)]
                 ok = bool(keyed) and len(added) == 1 and "item@" in S.fstr(st)
+                if not keyed and not ins:
+                    # loop fission: this loop only records (signature, state); a second loop over the recorded pairs files each
+                    # state under its signature
+                    from .common import staged_list
+                    stg = staged_list(sg, ex, paths, r"Vec::<\(.*TransitionsToPartitionGroups, .*StateID\)>::push$")
+                    mine = [v for q, v in stg["pushes"] if q is p]
+                    v0 = (ex.deref_val(p, mine[0]) if mine and mine[0][0] == "ref" else (mine[0] if mine else None))
+                    pair_ok = len(mine) == 1 and v0 is not None and v0[0] == "tuple" and len(v0[1]) == 2 and v0[1][0] == sres and v0[1][1] == st
+                    second = False
+                    for q in paths:
+                        if q.end[0] != "cut" or q.calls(r"Minimizer::build_transitions_to_partition_group$"):
+                            continue
+                        nx_ = [e for e in q.events if e[0] == "call" and re.search(r"iter::Iterator>::next$", e[2]) and e[1] in stg["walkers"]]
+                        if not nx_:
+                            continue
+                        it_ = "item@bb%d" % nx_[-1][1]
+                        k2 = [e for e in q.events if e[0] == "call" and re.search(r"BTreeMap::<.*>::(entry|get_mut|get|insert)(::<.*>)?$", e[2]) and len(e[3]) >= 2 and S.fstr(ex.deref_val(q, e[3][1]) if e[3][1][0] == "ref" else e[3][1]).replace("(", "").replace(")", "") == it_ + ".0"]
+                        a2 = [e for e in q.calls(r"BTreeSet::<.*StateID>::insert$") if S.fstr(e[3][1]).replace("(", "").replace(")", "") == it_ + ".1"]
+                        second = bool(k2) and len(a2) == 1
+                    ok = pair_ok and second and len(stg["lists"]) == 1 and not stg["mutations"] and "item@" in S.fstr(st)
                 ok_part = S.fstr(sig[0][3][1]).lstrip("&*") == "partition" and S.fstr(sig[0][3][2]).lstrip("&*") == "transitions"
                 ob("C03.b", "signature-computed-against-the-given-partition", ok_part, "signature(%s, %s, %s)" % tuple(S.fstr(a)[:30] for a in sig[0][3]), sg.loc())
             ob("C03.b", "each-state-goes-to-the-group-of-its-signature", ok, "per state: %d signature(s), %d insert(s)" % (len(sig), len(ins)), sg.loc())
